@@ -19,7 +19,7 @@ from harness import fw
 from harness.fw import Err, catch, cstr, clist, cpair, copt, cbool, cZ
 
 IMPORTS = ["Webob.Lib.PyStr", "Webob.Lib.C15_Utf8", "Webob.Gen.C15_tables", "Webob.Model.C15_Scan",
-           "Webob.Model.C15_CookieJar"]
+           "Webob.Model.C15_CookieJar", "Webob.Spec.C15_JarSpec"]
 GEN_PATH = os.path.join(fw.COQ, "Gen", "C15_tables.v")
 
 WS = frozenset([9, 10, 11, 12, 13, 32])
@@ -979,6 +979,46 @@ def classify_request(op, before):
     return "request-jar:dict-model"
 
 
+_LEGAL = []
+
+
+def in_class(header):
+    """The theorems' domain predicate [wf_headerb] of Spec/C15_JarSpec.v (proved equivalent to wf_header), computed here
+    on webob's own scanner (= the model's scan, by the scan correspondence) and the regenerated legal alphabet; the
+    'wf-header' correspondence compares it with the Coq predicate on every header the correspondence histories pass through."""
+    if not _LEGAL:
+        _LEGAL.extend(read_tables()[0]["legal"])
+    legal = set(_LEGAL)
+    try:
+        hb = (header or "").encode("latin-1")
+    except UnicodeEncodeError:
+        return False
+    prev = 0
+    for m in C()._rx_cookie.finditer(hb):
+        gap = hb[prev:m.start()]
+        if 61 in gap or (gap and gap[-1] in legal):
+            return False
+        key = m.group(1)
+        if not key or any(c == 61 or c not in legal for c in key):
+            return False
+        sep = hb[m.end(1):m.start(2)]
+        i = sep.find(b"=")
+        if i < 0 or any(c not in WS for c in sep[:i] + sep[i + 1:]):
+            return False
+        val = m.group(2)
+        if len(val) >= 2 and val[0] == 34 and val[-1] == 34:
+            body = val[1:-1]
+            if any(c in (34, 10) for c in body) or (body and body[-1] == 92):
+                return False
+        elif any(c not in legal for c in val):
+            return False
+        nxt = hb[m.end():m.end() + 1]
+        if nxt and nxt != b";":
+            return False
+        prev = m.end()
+    return 61 not in hb[prev:]
+
+
 def set_refusal(name, value, strictq):
     """None when cookies[name] = value must be accepted, else the exception classes with which it must be refused
     (reference predicate: RFC 6265 token names that are not attribute words, text values; under the strict-quoting
@@ -1016,8 +1056,11 @@ def oracle_request(case):
             before = req.environ.get("HTTP_COOKIE")
             before_pairs = raw_pairs(before)
             before_jar = read_jar(req, view)
-            if ref is None and not semantic and not isinstance(before_jar, Err):
-                ref = {k: v for k, v in before_jar}      # readable again: follow the implementation from here on
+            if not semantic:
+                # not known to be tokenisable by construction: the reference follows what the implementation reads, and the
+                # theorems' own domain predicate decides, header by header, whether the dict-model comparison is owed
+                ref = {k: v for k, v in before_jar} if not isinstance(before_jar, Err) else None
+            sem = semantic or (in_class(before) and not strictq)
             # a brand-new Request over the same header must answer this operation exactly like the long-lived one
             twin = new_request(before)
             tr = apply_rop(twin, op)
@@ -1077,6 +1120,7 @@ def oracle_request(case):
                 if r is not None or jar != []:
                     return (key, where + "clear() left %r (returned %r)" % (jar, r))
                 ref = {}
+                semantic = True          # the empty header is in the class
             elif t in ("assign", "update"):
                 if pairs_shape(op) == "self":
                     # request.cookies = request.cookies: nothing may change (under the strict-quoting configurations the
@@ -1088,7 +1132,7 @@ def oracle_request(case):
                     elif ref is not None and (r is not None or jar != [[k, v] for k, v in ref.items()]):
                         return ("request-cookies-setter:self-assignment-loses-cookies",
                                 where + "assigning the request's own jar gave %r and left %r, it held %r" % (r, jar, list(ref.items())))
-                elif semantic or ref is not None or t == "assign":
+                elif t == "assign" or (sem and ref is not None):
                     want, bad = ({} if t == "assign" else dict(ref)), False
                     for k, v in op[1]:
                         if set_refusal(k, v, strictq):
@@ -1111,7 +1155,7 @@ def oracle_request(case):
                         return (key, where + "popitem() gave %r, the jar held %r" % (r, list(ref.items())))
                     else:
                         del ref[r[0]]
-                        if jar != [[k, v] for k, v in ref.items()]:
+                        if sem and jar != [[k, v] for k, v in ref.items()]:
                             return (key, where + "jar reads %r, the reference dict is %r" % (jar, list(ref.items())))
             else:
                 name = op[1]
@@ -1136,7 +1180,7 @@ def oracle_request(case):
                         ref[name] = op[2]
                 elif t == "set" and r is not None and not isinstance(init, Err):
                     return (key, where + "assignment raised %r" % (r,))
-                if semantic and isinstance(name, str) and valid_name_ref(name):
+                if sem and ref is not None and isinstance(name, str) and valid_name_ref(name):
                     if jar != [[k, v] for k, v in ref.items()]:
                         return (key, where + "jar reads %r, the reference dict is %r" % (jar, list(ref.items())))
                     bname = name.encode("ascii")
@@ -1144,11 +1188,7 @@ def oracle_request(case):
                     b = [kv for kv in before_pairs if kv[0] != bname]
                     if a != b:
                         return (key, where + "pairs of other names changed: %r -> %r" % (b, a))
-                elif ref is not None and not semantic:
-                    # outside the tokenisable class only coherence is asked: the reference follows the implementation
-                    ref = {k: v for k, v in jar} if not isinstance(jar, Err) else None
-            if not semantic and ref is not None:
-                ref = {k: v for k, v in jar} if not isinstance(jar, Err) else None
+                # (outside the class only coherence is asked: the reference is re-read at the next step)
             f1, f2 = fresh_views(req)
             if view is not None and read_jar(req) != jar:
                 return ("request-jar:fresh-request-disagrees", where + "a new req.cookies view reads %r, the held one %r" % (read_jar(req), jar))
@@ -1680,6 +1720,7 @@ ORACLE_ONLY = [
 def run(ctx):
     warnings.simplefilter("ignore")
     _SEEN_KEYS.clear()
+    del _LEGAL[:]
     ctx.modelled(MODELLED)
     ctx.extra["regenerated_from_source"] = REGENERATED
     ctx.extra["oracle_only"] = ORACLE_ONLY
@@ -1729,6 +1770,19 @@ def run(ctx):
         lit = cpair("None" if c["header"] is None else "(Some %s)" % cstr(c["header"]),
                     clist(c_rop(o) for o in c["ops"] if o[0] != "read"))
         cases.append((lit, out, c))
+    # the theorems' domain predicate: Coq's wf_headerb against the harness's in_class on every header these histories
+    # start from or pass through (in_class decides where the oracle owes the dict-model comparison)
+    seen_h = {}
+    for _, out, c in cases:
+        for row in out:
+            h = row[0] if len(row) == 2 else row[1]
+            if isinstance(h, str) and all(ord(ch) < 256 for ch in h):
+                seen_h.setdefault(h.encode("latin-1"), None)
+    for b in hb:
+        seen_h.setdefault(b, None)
+    corr_simple(ctx, "wf-header", "(fun s => VBool (wf_headerb s))", "str", list(seen_h),
+                lambda b: in_class(b.decode("latin-1")), cstr)
+    ctx.extra["in_class_share"] = round(sum(1 for b in seen_h if in_class(b.decode("latin-1"))) / max(1, len(seen_h)), 3)
     bad = ctx.corr("request-jar", IMPORTS, "(fun c => run_request_u (fst c) (snd c))",
                    [(l, o, to_json(c)) for l, o, c in cases], in_type="(option str * list rop)")
     for i in bad[:8]:
